@@ -560,6 +560,13 @@ def dry_rule(chk, ctx):
                     bound[kw.arg] = kw.value
             has_star = any(kw.arg is None for kw in call.keywords) or any(isinstance(a, ast.Starred) for a in call.args)
             for q in pos + kwonly:
+                # crossed arguments: the callee's parameter q receives another of the caller's own parameters
+                v_ = bound.get(q)
+                if q in own and isinstance(v_, ast.Name) and v_.id in own and v_.id != q and (v_.id in pos or v_.id in kwonly):
+                    chk.decide("C14.WEIGHTS", f"multistage.{cname_}#dry-run->{callee_name}[{k}]/{q}/crossed", False,
+                               f"{callee_name}(...) receives the caller's `{v_.id}` as `{q}`: the dry run is that of a schedule with "
+                               "other parameters", rel=REL, node=call)
+                    continue
                 if q not in own or q not in defaults:
                     continue       # only parameters both sides have, and that can be left out
                 cons = f"multistage.{cname_}#dry-run[{k}]/{q}" if callee_name in ("allocate_snapshots", CLS) else \
